@@ -654,3 +654,236 @@ Proof.
     unfold sm_step. rewrite Eph. destruct m; cbn [coarse istep invalid with_metrics fst snd sm_phase]; rewrite ?Eph;
       (split; [reflexivity|]); (split; [reflexivity|]); apply ms_quiet; reflexivity.
 Qed.
+
+(* ================================================================== *)
+(* 6. the control half of the simulation invariant                      *)
+(* ================================================================== *)
+
+(* an id recorded for a BMP wire identity (k, p): the peer entry under router k's entry *)
+Definition bmp_id_ok (r : reg) (uid : N) (x : wid) (i : N) : Prop :=
+  x.1 < 1000 /\ exists rid, infos r !! rid = Some (router_query uid x.1) /\ infos r !! i = Some (peer_query rid x.2).
+(* an id recorded for a BGP connection: a bare registration, of a connection ordinal already used *)
+Definition bgp_id_ok (r : reg) (conns : gmap N N) (x : wid) (i : N) : Prop :=
+  exists b c c', x = bgp_wid b c /\ infos r !! i = None /\ i < serial r /\ conns !! b = Some c' /\ c <= c'.
+
+Record CtlOK (bd : N) (w : world) (sw : sworld) : Prop := {
+  c_reg : RegOK (w_reg w) (w_unit w);
+  c_ser : serial (w_reg w) <= bd;
+  c_sess_none : forall k, w_routers w !! k = None -> s_sess sw !! k = None;
+  c_sess_some : forall k rid s, w_routers w !! k = Some (rid, s) ->
+      exists ever, s_sess sw !! k = Some (coarse (sm_phase s), dom (id_table s), ever);
+  c_rtr : forall k rid s, w_routers w !! k = Some (rid, s) ->
+      k < 1000 /\ infos (w_reg w) !! rid = Some (router_query (w_unit w) k);
+  c_peer : forall k rid s p i, w_routers w !! k = Some (rid, s) -> id_table s !! p = Some i -> id_of (w_ids w) (k, p) = Some i;
+  c_ids : forall x i, id_of (w_ids w) x = Some i ->
+      bmp_id_ok (w_reg w) (w_unit w) x i \/ bgp_id_ok (w_reg w) (w_bgp_conns w) x i;
+  c_bgp : forall b id c, w_bgp w !! b = Some (id, c) -> id_of (w_ids w) (bgp_wid b c) = Some id;
+  c_sbgp : forall b, s_bgp sw !! b = snd <$> (w_bgp w !! b);
+  c_conns : s_bgp_conns sw = w_bgp_conns w }.
+
+Ltac wproj := cbn [w_reg w_unit w_routers w_rib w_bgp w_bgp_conns w_ids s_sess s_rib s_bgp s_bgp_conns fst snd].
+Ltac wproj_in H := cbn [w_reg w_unit w_routers w_rib w_bgp w_bgp_conns w_ids s_sess s_rib s_bgp s_bgp_conns fst snd] in H.
+
+Lemma CtlOK_mono bd bd' w sw : CtlOK bd w sw -> bd <= bd' -> CtlOK bd' w sw.
+Proof. intros [A B C D E F G H I J] Hle. split; try assumption. lia. Qed.
+
+Lemma bmp_id_ok_le r uid r' x i : RegOK r uid -> reg_le r r' -> bmp_id_ok r uid x i -> bmp_id_ok r' uid x i.
+Proof.
+  intros HR Hle (Hk & rid & H1 & H2). split; [exact Hk|]. exists rid. split; eapply reg_le_some; eassumption.
+Qed.
+
+Lemma bgp_id_ok_le r r' conns x i : reg_le r r' -> bgp_id_ok r conns x i -> bgp_id_ok r' conns x i.
+Proof.
+  intros [Hs Hle] (b & c & c' & -> & Hn & Hlt & Hc & Hcc). exists b, c, c'. repeat split; try assumption; [|lia].
+  rewrite Hle by exact Hlt. exact Hn.
+Qed.
+
+Lemma bgp_wid_inj b c b' c' : bgp_wid b c = bgp_wid b' c' -> b = b' /\ c = c'.
+Proof. unfold bgp_wid. intros [= H1 H2]. split; [lia|exact H2]. Qed.
+
+(* a BMP wire identity (router key below 1000) never carries a BGP connection's id record *)
+Lemma ids_bmp bd w sw k p i : CtlOK bd w sw -> k < 1000 -> id_of (w_ids w) (k, p) = Some i ->
+  exists rid, infos (w_reg w) !! rid = Some (router_query (w_unit w) k) /\ infos (w_reg w) !! i = Some (peer_query rid p).
+Proof.
+  intros H Hk Hi. destruct (c_ids _ _ _ H _ _ Hi) as [(_ & rid & H1 & H2)|(b & c & c' & Hx & _)]; [eauto|].
+  unfold bgp_wid in Hx. injection Hx as Hx _. lia.
+Qed.
+
+Lemma note_id_ext ids x0 i0 x i : id_of ids x = Some i -> id_of (note_id ids x0 i0) x = Some i.
+Proof.
+  intros H. destruct (id_of ids x0) as [j|] eqn:E0; [rewrite (note_id_old _ _ _ _ E0); exact H|].
+  rewrite (note_id_new _ _ _ E0), id_of_snoc, H. reflexivity.
+Qed.
+
+Lemma note_id_inv ids x0 i0 x i : id_of (note_id ids x0 i0) x = Some i ->
+  id_of ids x = Some i \/ (x = x0 /\ i = i0 /\ id_of ids x0 = None).
+Proof.
+  destruct (id_of ids x0) as [j|] eqn:E0; [rewrite (note_id_old _ _ _ _ E0); auto|].
+  rewrite (note_id_new _ _ _ E0), id_of_snoc. destruct (id_of ids x) as [j|]; [auto|].
+  destruct (decide (x0 = x)) as [->|]; [|discriminate]. intros [= ->]. auto.
+Qed.
+
+(* replace (or create) the session of router k; register and id record may have grown *)
+Lemma ctl_session bd w sw k rid s' bd' r' ids' rib' sess' srib' :
+  CtlOK bd w sw ->
+  RegOK r' (w_unit w) -> reg_le (w_reg w) r' -> serial r' <= bd' ->
+  (forall x i, id_of (w_ids w) x = Some i -> id_of ids' x = Some i) ->
+  (forall x i, id_of ids' x = Some i -> id_of (w_ids w) x = Some i \/ bmp_id_ok r' (w_unit w) x i) ->
+  k < 1000 -> infos r' !! rid = Some (router_query (w_unit w) k) ->
+  (forall p i, id_table s' !! p = Some i -> id_of ids' (k, p) = Some i) ->
+  (exists ever, sess' !! k = Some (coarse (sm_phase s'), dom (id_table s'), ever)) ->
+  (forall k', k' <> k -> sess' !! k' = s_sess sw !! k') ->
+  CtlOK bd' (MkWorld r' (w_unit w) (<[k := (rid, s')]> (w_routers w)) rib' (w_bgp w) (w_bgp_conns w) ids')
+            (MkSWorld sess' srib' (s_bgp sw) (s_bgp_conns sw)).
+Proof.
+  intros H HR' Hle Hser Hext Hinv Hk Hrid Hpeers Hsk Hso.
+  pose proof (c_reg _ _ _ H) as HR.
+  split; wproj.
+  - exact HR'.
+  - exact Hser.
+  - intros k0 H0. apply lookup_insert_None in H0 as [H0 Hne]. rewrite Hso by congruence. apply (c_sess_none _ _ _ H), H0.
+  - intros k0 rid0 s0 H0. apply lookup_insert_Some in H0 as [[<- [= <- <-]]|[Hne H0]]; [exact Hsk|].
+    rewrite Hso by congruence. eapply (c_sess_some _ _ _ H), H0.
+  - intros k0 rid0 s0 H0. apply lookup_insert_Some in H0 as [[<- [= <- <-]]|[Hne H0]]; [auto|].
+    destruct (c_rtr _ _ _ H _ _ _ H0) as [A B]. split; [exact A|]. eapply reg_le_some; eassumption.
+  - intros k0 rid0 s0 p i H0 Hp. apply lookup_insert_Some in H0 as [[<- [= <- <-]]|[Hne H0]]; [auto|].
+    apply Hext. eapply (c_peer _ _ _ H); eassumption.
+  - intros x i Hx. destruct (Hinv _ _ Hx) as [Hx'|Hx']; [|left; exact Hx'].
+    destruct (c_ids _ _ _ H _ _ Hx') as [Hb|Hb]; [left; eapply bmp_id_ok_le; eassumption|right; eapply bgp_id_ok_le; eassumption].
+  - intros b id c Hb. apply Hext. eapply (c_bgp _ _ _ H), Hb.
+  - apply (c_sbgp _ _ _ H).
+  - apply (c_conns _ _ _ H).
+Qed.
+
+Definition step_evs (x : wout) : list ev := concat (map evs_of_update (out_updates x)).
+
+Lemma step_evs_step o ph : step_evs (WoStep o ph) = out_evs o.
+Proof. unfold step_evs. destruct o; cbn; rewrite ?app_nil_r; reflexivity. Qed.
+
+Definition note_of (ids : list (wid * N)) (k : N) (m : msg) (s' : sm) : list (wid * N) :=
+  match m with
+  | MPeerUp p _ => match sm_peers s' !! p with Some pe => note_id ids (k, p) (pe_id pe) | None => ids end
+  | _ => ids
+  end.
+
+Lemma wstep_msg w k m rid s : w_routers w !! k = Some (rid, s) ->
+  wstep w (WMsg k m) =
+  let res := sm_step (w_reg w) rid s m in
+  (MkWorld res.1.1 (w_unit w) (<[k := (rid, res.1.2)]> (w_routers w)) (apply_outcome (w_rib w) res.2) (w_bgp w) (w_bgp_conns w)
+           (note_of (w_ids w) k m res.1.2), WoStep res.2 (phase_idx (sm_phase res.1.2))).
+Proof. intros H. cbn [wstep]. rewrite H. destruct (sm_step (w_reg w) rid s m) as [[r' s'] o]. reflexivity. Qed.
+
+(* nothing to note when every up peer's id is on record already *)
+Lemma note_of_quiet ids k m s' : (forall p i, id_table s' !! p = Some i -> id_of ids (k, p) = Some i) -> note_of ids k m s' = ids.
+Proof.
+  intros H. destruct m as [| |p|p e|p|p u]; try reflexivity. cbn [note_of].
+  destruct (sm_peers s' !! p) as [pe|] eqn:E; [|reflexivity].
+  eapply note_id_old, (H p). rewrite id_table_lookup, E. reflexivity.
+Qed.
+
+Definition Lstep (L : rkey -> option (bool * N)) (evs : list ev) : rkey -> option (bool * N) :=
+  fun key => fold_left (spec_step key) evs (L key).
+
+Lemma msg_ctl_same bd w sw k rid s s' rib' sess' srib' ever' :
+  CtlOK bd w sw -> w_routers w !! k = Some (rid, s) ->
+  (forall p i, id_table s' !! p = Some i -> id_table s !! p = Some i) ->
+  sess' !! k = Some (coarse (sm_phase s'), dom (id_table s'), ever') ->
+  (forall k', k' <> k -> sess' !! k' = s_sess sw !! k') ->
+  CtlOK (bd + 1) (MkWorld (w_reg w) (w_unit w) (<[k := (rid, s')]> (w_routers w)) rib' (w_bgp w) (w_bgp_conns w) (w_ids w))
+                 (MkSWorld sess' srib' (s_bgp sw) (s_bgp_conns sw)).
+Proof.
+  intros H Hr Hsub Hsk Hso. destruct (c_rtr _ _ _ H _ _ _ Hr) as [Hk Hrid].
+  eapply ctl_session; try eassumption.
+  - apply (c_reg _ _ _ H).
+  - apply reg_le_refl.
+  - pose proof (c_ser _ _ _ H). lia.
+  - auto.
+  - auto.
+  - intros p i Hp. eapply (c_peer _ _ _ H); [exact Hr|]. apply Hsub, Hp.
+  - eauto.
+Qed.
+
+Lemma step_msg bd w sw L k m :
+  CtlOK bd w sw -> RibOK (w_ids w) (s_rib sw) L -> bd + 1 < two32 ->
+  CtlOK (bd + 1) (wstep w (WMsg k m)).1 (sstep sw (WMsg k m)).1 /\
+  RibOK (w_ids (wstep w (WMsg k m)).1) (s_rib (sstep sw (WMsg k m)).1) (Lstep L (step_evs (wstep w (WMsg k m)).2)).
+Proof.
+  intros H HRib Hbd.
+  destruct (w_routers w !! k) as [[rid s]|] eqn:Hr.
+  2:{ cbn [wstep sstep]. rewrite Hr, (c_sess_none _ _ _ H _ Hr). cbn [fst snd]. split; [eapply CtlOK_mono; [exact H|lia]|].
+      eapply RibOK_ext; [exact HRib|reflexivity]. }
+  destruct (c_sess_some _ _ _ H _ _ _ Hr) as [ever Hs].
+  destruct (c_rtr _ _ _ H _ _ _ Hr) as [Hk Hrid].
+  pose proof (c_reg _ _ _ H) as HR. pose proof (c_ser _ _ _ H) as Hser.
+  assert (Hpeer : forall p i, id_table s !! p = Some i -> id_of (w_ids w) (k, p) = Some i)
+    by (intros p i; apply (c_peer _ _ _ H _ _ _ _ _ Hr)).
+  destruct (sstep_msg sw k m _ _ _ Hs) as ([ever' Hsk] & Hso & Hsrib & Hsbgp & Hsconns).
+  destruct (sm_istep (w_reg w) rid s m k (s_rib sw)) as (Hph & Hup & Hsim).
+  rewrite (wstep_msg _ _ _ _ _ Hr). cbv zeta. cbn [fst snd]. wproj. rewrite step_evs_step.
+  destruct (sstep sw (WMsg k m)) as [[sess' srib' sbgp' sconns'] so]. cbn [fst snd s_sess s_rib s_bgp s_bgp_conns] in *.
+  destruct (sm_step (w_reg w) rid s m) as [[r' s'] out]. cbn [fst snd] in *.
+  destruct (istep k (coarse (sm_phase s)) (dom (id_table s)) (s_rib sw) m) as [[ph' up'] rb']. cbn [fst snd] in *.
+  subst ph' up' srib' sbgp' sconns'.
+  inversion Hsim as [s0 o0 Ht Ho|p e id r0 s0 o0 Hm Hf Ho Hcase|p i s0 o0 Hp Ht Ho|p i u s0 o0 Hp Ht Ho|ms s0 o0 Ht Ho Hms]; subst.
+  - (* quiet *)
+    assert (Hsub : forall p i, id_table s' !! p = Some i -> id_table s !! p = Some i) by (rewrite Ht; auto).
+    rewrite note_of_quiet by (intros p i Hp; apply Hpeer, Hsub, Hp). split.
+    + eapply msg_ctl_same; eassumption.
+    + eapply RibOK_ext; [exact HRib|]. intros key. unfold Lstep. rewrite Ho. reflexivity.
+  - (* Peer Up *)
+    assert (Hvq : vq (w_reg w) (w_unit w) (peer_query rid p)) by (right; eauto).
+    destruct (for_ext peer_match (w_reg w) (w_unit w) (peer_query rid p) HR) as (HR' & Hle & Hser' & Hid);
+      [intros inf Hinf; eapply peer_match_eq; exact Hinf|exact Hvq|lia|].
+    rewrite Hf in HR', Hle, Hser', Hid. cbn [fst snd] in HR', Hle, Hser', Hid.
+    assert (HRibL : RibOK (w_ids w) (s_rib sw) (Lstep L (out_evs out))).
+    { eapply RibOK_ext; [exact HRib|]. intros key. unfold Lstep. rewrite Ho. reflexivity. }
+    destruct Hcase as [[Ht Hup]|[Ht Hnone]].
+    + assert (Hsub : forall q i, id_table s' !! q = Some i -> id_table s !! q = Some i) by (rewrite Ht; auto).
+      rewrite note_of_quiet by (intros q i Hq; apply Hpeer, Hsub, Hq). split; [|exact HRibL].
+      eapply ctl_session; try eassumption; [lia|auto|auto|exact (reg_le_some _ _ _ _ _ HR Hle Hrid)| |eauto].
+      intros q i Hq. apply Hpeer, Hsub, Hq.
+    + cbn [note_of]. assert (Hsp : id_table s' !! p = Some id) by (rewrite Ht; apply lookup_insert).
+      rewrite id_table_lookup in Hsp. destruct (sm_peers s' !! p) as [pe|]; [|discriminate]. injection Hsp as Hpe. rewrite Hpe. clear Hpe pe.
+      assert (Hrid' : infos r' !! rid = Some (router_query (w_unit w) k)) by exact (reg_le_some _ _ _ _ _ HR Hle Hrid).
+      assert (Hnew : forall j, id_of (w_ids w) (k, p) = Some j -> j = id).
+      { intros j Hj. destruct (ids_bmp _ _ _ _ _ _ H Hk Hj) as (rid0 & H1 & H2).
+        assert (rid0 = rid) as -> by (eapply (ro_inj _ _ HR); eassumption).
+        eapply (ro_inj _ _ HR'); [|exact Hid]. exact (reg_le_some _ _ _ _ _ HR Hle H2). }
+      split; [|apply RibOK_note, HRibL].
+      eapply ctl_session; try eassumption.
+      * lia.
+      * intros x i. apply note_id_ext.
+      * intros x i Hx. apply note_id_inv in Hx as [Hx|(-> & -> & _)]; [auto|right].
+        split; [exact Hk|]. exists rid. split; assumption.
+      * intros q i Hq. rewrite Ht in Hq. apply lookup_insert_Some in Hq as [[<- <-]|[Hne Hq]].
+        -- destruct (id_of (w_ids w) (k, p)) as [j|] eqn:Ej.
+           ++ rewrite (note_id_old _ _ _ _ Ej), Ej. f_equal. apply Hnew. reflexivity.
+           ++ rewrite (note_id_new _ _ _ Ej), id_of_snoc, Ej. rewrite decide_True by reflexivity. reflexivity.
+        -- apply note_id_ext, Hpeer, Hq.
+      * eauto.
+  - (* Peer Down *)
+    assert (Hsub : forall q j, id_table s' !! q = Some j -> id_table s !! q = Some j).
+    { rewrite Ht. intros q j Hq. apply lookup_delete_Some in Hq as [_ Hq]. exact Hq. }
+    rewrite note_of_quiet by (intros q j Hq; apply Hpeer, Hsub, Hq). split.
+    + eapply msg_ctl_same; eassumption.
+    + eapply (RibOK_down _ _ _ _ [i]); [exact HRib| |intros key; unfold Lstep; rewrite Ho; reflexivity].
+      intros x i0 Hx Hsole. rewrite bool_decide_eq_true, elem_of_list_singleton. split.
+      * intros ->. rewrite (Hpeer _ _ Hp) in Hx. congruence.
+      * intros ->. symmetry. apply Hsole, Hpeer, Hp.
+  - (* Route Monitoring *)
+    assert (Hsub : forall q j, id_table s' !! q = Some j -> id_table s !! q = Some j) by (rewrite Ht; auto).
+    rewrite note_of_quiet by (intros q j Hq; apply Hpeer, Hsub, Hq). split.
+    + eapply msg_ctl_same; eassumption.
+    + eapply RibOK_update; [exact HRib|apply Hpeer, Hp|intros key; unfold Lstep; rewrite Ho; reflexivity].
+  - (* Termination *)
+    assert (Hsub : forall q j, id_table s' !! q = Some j -> id_table s !! q = Some j).
+    { rewrite Ht. intros q j Hq. rewrite lookup_empty in Hq. discriminate. }
+    rewrite note_of_quiet by (intros q j Hq; apply Hpeer, Hsub, Hq). split.
+    + eapply msg_ctl_same; eassumption.
+    + eapply (RibOK_down _ _ _ _ ms); [exact HRib| |intros key; unfold Lstep; rewrite Ho; reflexivity].
+      intros x i0 Hx Hsole. rewrite bool_decide_eq_true, Hms. split.
+      * intros [Hx1 Hx2]. apply elem_of_dom in Hx2 as [j Hj]. exists x.2. rewrite Hj. f_equal.
+        apply Hpeer in Hj. rewrite <- Hx1 in Hj. rewrite <- surjective_pairing in Hj. congruence.
+      * intros [q Hq]. assert (x = (k, q)) as -> by (symmetry; apply Hsole, Hpeer, Hq).
+        cbn [fst snd]. split; [reflexivity|]. apply elem_of_dom. eauto.
+Qed.
